@@ -160,6 +160,30 @@ func repeated(reps int, f func() string) string {
 	return first
 }
 
+// scribble changes a parsed value in place at every level (as a program may do to a call result it never bound to a name)
+func scribble(e r.Element, depth int) {
+	if depth > 20 {
+		return
+	}
+	switch v := e.(type) {
+	case *value.HashMap:
+		for _, k := range append([]string{}, v.GetKeyOrder()...) {
+			scribble(v.GetValue()[k], depth+1)
+		}
+		v.ExecMethod("写入", []r.Element{value.NewString("涂"), value.NewNumber(99)})
+		if ks := v.GetKeyOrder(); len(ks) > 1 {
+			v.ExecMethod("移除", []r.Element{value.NewString(ks[0])})
+		}
+	case *value.Array:
+		for _, it := range append([]r.Element{}, v.GetValue()...) {
+			scribble(it, depth+1)
+		}
+		v.ExecMethod("后增", []r.Element{value.NewString("涂")})
+	case *value.Number:
+		v.ExecMethod("自增", []r.Element{value.NewNumber(7)})
+	}
+}
+
 func parseOutcome(v r.Element, err error) string {
 	if err != nil {
 		return jsonErr(err)
@@ -199,7 +223,12 @@ func opJSON(f []string) string {
 	case "parse":
 		reps, _ := strconv.Atoi(f[1])
 		args := parseNestedSpecs(f[2:])
-		return repeated(reps, func() string { return parseOutcome(zjson.FN_parseJson(nil, args)) })
+		return repeated(reps, func() string {
+			e, err := zjson.FN_parseJson(nil, args)
+			out := parseOutcome(e, err)
+			scribble(e, 0) // the caller owns what it got: what it does to it must not reach the next parse of the same text
+			return out
+		})
 	case "rt":
 		reps, _ := strconv.Atoi(f[1])
 		text, err := zjson.FN_generateJson(nil, []r.Element{parseNestedSpec(f[2])})
